@@ -127,7 +127,10 @@ bool stub_false(void *) { return false; }
 bool stub_hasSortBool(void *, PTRef t) { return ref_ok(t) && isB[t.x]; }
 // Logic::pp (only used for the text of LANonLinearException) and the exception's constructor (string concatenation): cut
 void stub_pp(std::string * out, void *, PTRef) { new (out) std::string(); }
-void stub_nonlinear_ctor(LANonLinearException *, char const *) {}
+void stub_nonlinear_ctor(LANonLinearException * self, char const * r) {     // base and (empty) message are constructed: the native replay destroys the object
+    new (static_cast<std::runtime_error *>(self)) std::runtime_error(r);
+    new (&self->msg) std::string();
+}
 // ArithLogic::mkConst(SRef, Number const &): hash-consed numeric constant = the node with that value, else a new constant node
 PTRef stub_mkConstNumber(ArithLogic *, SRef, FastRational const & c) {
     if (!c.wordPartValid() || c.den != 1 || c.num <= -128 || c.num >= 128) { overflow = true; return PTRef{0}; }   // small integers only
@@ -352,8 +355,10 @@ static int times3(uint32_t a0, uint32_t const * l1, int n1, uint32_t const * l2,
 // quick tier
 extern "C" void h_mkTimes2_q1() { finish<W_REJ | W_RET | W_RET_EXIST | W_RET_NEW | W_DISTRIB | W_FOLDED>(times2(QA, 4, QA, NQA)); }
 extern "C" void h_mkTimes2_q2() { finish<W_REJ | W_RET | W_RET_EXIST | W_RET_NEW | W_DISTRIB>(times2(QA + 4, 3, QA, NQA)); }
-extern "C" void h_mkTimes3_q_const() { finish<W_REJ | W_REJ2SUMS | W_RET | W_RET_NEW | W_DISTRIB | W_FOLDED>(times3(N_2, QB, NQB, QB, NQB)); }
-extern "C" void h_mkTimes3_q_sum() { finish<W_REJ | W_REJ2SUMS | W_RET | W_RET_NEW | W_DISTRIB>(times3(N_XP1, QB, NQB, QB, NQB)); }
+extern "C" void h_mkTimes3_q_const1() { finish<W_REJ | W_RET | W_RET_NEW | W_DISTRIB | W_FOLDED>(times3(N_2, QB, 2, QB, NQB)); }
+extern "C" void h_mkTimes3_q_const2() { finish<W_REJ | W_REJ2SUMS | W_RET | W_RET_NEW | W_DISTRIB>(times3(N_2, QB + 2, 3, QB, NQB)); }
+extern "C" void h_mkTimes3_q_sum1() { finish<W_REJ | W_REJ2SUMS | W_RET | W_RET_NEW | W_DISTRIB>(times3(N_XP1, QB, 2, QB, NQB)); }
+extern "C" void h_mkTimes3_q_sum2() { finish<W_REJ | W_REJ2SUMS>(times3(N_XP1, QB + 2, 3, QB, NQB)); }
 // the defect repaired by ce45400 as single tuples: (* 2 (+ x 1) (+ y 1)) in every argument order, and a linear control (* 2 3 (+ x 1))
 extern "C" void h_mkTimes3_two_sums() {
     build_universe();
@@ -436,14 +441,16 @@ static int cmps(Op op, uint32_t const * l0, int n0, uint32_t const * l1, int n1)
 #define W_CMP (W_RET | W_ATOM | W_DECIDED)
 extern "C" void h_mkLeq_q1() { finish<W_CMP>(cmps(O_LEQ, QA, 4, QA, NQA)); }
 extern "C" void h_mkLeq_q2() { finish<W_CMP>(cmps(O_LEQ, QA + 4, 3, QA, NQA)); }
-extern "C" void h_mkEq_q() { finish<W_CMP>(cmps(O_EQ, QB, NQB, QB, NQB)); }
+extern "C" void h_mkEq_q1() { finish<W_CMP>(cmps(O_EQ, QB, 2, QB, NQB)); }
+extern "C" void h_mkEq_q2() { finish<W_CMP>(cmps(O_EQ, QB + 2, 3, QB, NQB)); }
 // mkBinaryGeq(a,b) = mkBinaryLeq(b,a), mkBinaryLt = not mkBinaryGeq, mkBinaryGt = not mkBinaryLeq: a variable and a sum against everything in QB
-extern "C" void h_mkGeqLtGt_q() {
-    static const uint32_t two[2] = {N_X, N_XP1};
+static void geqltgt(uint32_t a) {
     build_universe();
-    for (int i = 0; i < 2; i++) for (int j = 0; j < NQB; j++) { cmp_pair(O_GEQ, PTRef{two[i]}, PTRef{QB[j]}); cmp_pair(O_LT, PTRef{two[i]}, PTRef{QB[j]}); cmp_pair(O_GT, PTRef{two[i]}, PTRef{QB[j]}); }
-    finish<W_CMP>(30);
+    for (int j = 0; j < NQB; j++) { cmp_pair(O_GEQ, PTRef{a}, PTRef{QB[j]}); cmp_pair(O_LT, PTRef{a}, PTRef{QB[j]}); cmp_pair(O_GT, PTRef{a}, PTRef{QB[j]}); }
+    finish<W_CMP>(15);
 }
+extern "C" void h_mkGeqLtGt_q1() { geqltgt(N_X); }
+extern "C" void h_mkGeqLtGt_q2() { geqltgt(N_XP1); }
 #define CMP2(name, op) extern "C" void h_##name##_a() { finish<W_CMP>(cmps(op, ROWS(0, 7), ALL, N_ARITH)); } extern "C" void h_##name##_b() { finish<W_CMP>(cmps(op, ROWS(7, 14), ALL, N_ARITH)); }
 CMP2(mkLeq, O_LEQ) CMP2(mkGeq, O_GEQ) CMP2(mkLt, O_LT) CMP2(mkGt, O_GT) CMP2(mkEq, O_EQ)
 #endif
